@@ -190,6 +190,15 @@ def parse_steps(out):
     return steps
 
 
+def sinkb(sink):
+    """what a step wrote, independent of how it was chunked and where it was flushed (chunking / flush positions are C15's business):
+    the concatenated bytes, plus a mark if a sink call failed"""
+    if sink == "-":
+        return ""
+    ops = sink.split(",")
+    return "".join(o[1:] for o in ops if o.startswith("W") and o != "W.") + ("!" if any(o.startswith("X") for o in ops) else "")
+
+
 # ------------------------------------------------------------------ C07 tokenisation
 def c07(ck):
     rng = ck.rng
@@ -301,13 +310,32 @@ def c13(ck):
     cases += [gen.rand_writer_ops(rng) for _ in range(n)]
     cases = sorted(set(cases))
     spec = dict(zip(cases, drv_run("wrspec", cases)))
+    # the property is about what the terminal shows (own lines, fresh line for the prompt, line and cursor redisplayed): the frame the
+    # implementation produced and the frame of the spec (frame_write) are both shown to the extracted terminal after the build prompt and
+    # must give the same screen (finished rows, current row, column). Equal bytes are the common case and need no terminal.
+    scr_cache = {}
+
+    def screens(frames):
+        todo = sorted(set(f for f in frames if f not in scr_cache))
+        if todo:
+            for f, r in zip(todo, drv_run("screen", [f.split(" ")[0] + " 503e20" + f.split(" ", 1)[1].replace(".", "") if " " in f else f for f in todo])):
+                scr_cache[f] = r
+        return [scr_cache[f] for f in frames]
+
+    screens(list(spec.values()))
 
     def oracle(case, io):
-        if io != spec[case]:
-            return "framing spec: writes [%s] must put %s on the sink, implementation put %s" % (case, spec[case], io)
+        if io == spec[case]:
+            return None
+        if not io.startswith("ok ") and not io.startswith("err "):
+            return "crash / malformed output: " + io[:200]
+        a, b = screens([io, spec[case]])
+        if a != b:
+            return "framing spec: writes [%s] must put %s on the sink (screen %s), implementation put %s (screen %s)" % (case, spec[case], b, io, a)
         return None
 
     ck.run_family(Family("writer-frame", "wr", cases, oracle=oracle, shrink=core.shrink_ops_line(0),
+                         bulk_project=lambda outs: screens([o if " " in o else o + " ." for o in outs]),
                          nontrivial=lambda c, o: c != "-"))
     # sessions with handler output and Cli::write at arbitrary points: framing of every Enter / write call
     m = 6000 if thorough else 1200
@@ -334,7 +362,7 @@ def c13(ck):
         return None
 
     ck.run_family(Family("session-frames", "ses", ses, shrink=core.shrink_ops_line(4), decisive=False, oracle=oracle_fast,
-                         project=lambda o: [(s["r"], s["sink"].replace(",F", "").replace("F,", "")) for s in (parse_steps(o) or [])] or o,
+                         bulk_project=lambda outs: drv_run("termproj", outs),
                          nontrivial=lambda c, o: "w:" in c or "0d" in c))
     return ck.finish(trusted=TB_COMMON, rule="writer-frame: random texts (LF, CR LF, CR, empty) split over write_str/writeln_str/uwrite!/write! calls inside "
                      "Cli::write; sink bytes compared with the extracted frame_write; session-frames: random sessions, sink bytes per call "
@@ -564,7 +592,8 @@ def c17(ck):
         if len(calls) != 3 or calls[0] != want0 or calls[1] != want0 or calls[2] != want2:
             return "scalar U+%04X did not survive typing/editing/recall/short option: handler saw %s, expected [%s, %s, %s]" % (cp, calls, want0, want0, want2)
         return None
-    ck.run_family(Family("session-scalars", "ses", ses, oracle=oracle_ses, nontrivial=lambda c, o: True))
+    ck.run_family(Family("session-scalars", "ses", ses, oracle=oracle_ses, nontrivial=lambda c, o: True,
+                         bulk_project=lambda outs: drv_run("termproj", outs)))
     return ck.finish(trusted=TB_COMMON + ["Python's and Rust's own UTF-8 encoders/decoders as independent oracles"],
                      rule="utils-boundary-random: boundary and random scalars of every encoded length next to neighbours of other lengths through encode_utf8, "
                      "char_pop_front, char_count, char_byte_index, common_prefix_len, trim_start (implementation vs model vs Python's codec); utilsx: ALL scalar values "
@@ -747,12 +776,20 @@ def c14(ck):
                 decl_corpus.append(dl(k, declgen.rand_decl_line(rng, s_)))
     base = list(FAULT_CORPUS) + decl_corpus + [gen.rand_session(rng, 12) for _ in range(150 if thorough else 30)]
     base_out = core.run_engine(hb, "ses", base)
+    # the model's own fault-free run: fault positions are sink-call numbers, so model and implementation can only be compared under
+    # a fault where they make the same sink calls in that step (a re-chunked but equivalent implementation is then checked by the oracle alone)
+    try:
+        base_model = drv_run("ses", base)
+    except Broken:
+        base_model = [None] * len(base)
     cases = []
+    cases_only_impl = []
     nofault = {}
-    for b, o in zip(base, base_out):
+    for b, o, mo in zip(base, base_out, base_model):
         st = parse_steps(o)
         if st is None:
             continue
+        mst = parse_steps(mo) if mo else None
         head, ops = b.split(" ", 4)[:4], b.split(" ", 4)[4].split(";")
         # expand multi-byte b: ops to one byte per op so that step k = op k-1
         flat = []
@@ -768,7 +805,9 @@ def c14(ck):
             for j in range(calls[k]):
                 for mode in ("once", "perm"):
                     c = " ".join(head) + " " + ";".join(flat[:k - 1] + ["x:%d:%s" % (j, mode), flat[k - 1], "x:off", "b:78", "b:0d"])
-                    cases.append(c)
+                    same_calls = mst is not None and len(mst) == len(st) and all(
+                        [x[0] for x in a["sink"].split(",")] == [x[0] for x in m_["sink"].split(",")] for a, m_ in zip(st[:k + 1], mst[:k + 1]))
+                    (cases if same_calls else cases_only_impl).append(c)
                     nofault[c] = ((st[k - 1]["text"], st[k - 1]["cur"]), (st[k]["text"], st[k]["cur"]), k)
 
     def oracle(case, io):
@@ -799,6 +838,10 @@ def c14(ck):
     ck.run_family(Family("fault-enumeration", "ses", cases, oracle=oracle, shrink=None, decisive=False,
                          project=lambda o: [(s_["r"], s_["text"], s_["calls"]) for s_ in (parse_steps(o) or [])] or o,
                          nontrivial=lambda c, o: "err" in o, exhaustive=True))
+    if cases_only_impl:
+        ck.run_family(Family("fault-enumeration-oracle-only", "ses", cases_only_impl, oracle=oracle, shrink=None, decisive=False, impl_only=True,
+                             nontrivial=lambda c, o: "err" in o, exhaustive=True))
+        ck.notes.append("%d fault cases checked by the oracle only: the implementation's sink calls in the faulted step differ from the model's (same bytes, other chunking)" % len(cases_only_impl))
     return ck.finish(level="proof", trusted=TB_COMMON, rule="for every scenario of the corpus (typing, editing, recall, completion, quoted arguments, handler output of several kinds, "
                      "prompt change, Cli::write, set_prompt, help, help <cmd>, -h, tight buffers) and random short sessions: EVERY sink call of EVERY step fails once / permanently, "
                      "then `x` Enter with a working sink. Oracle on the implementation: the call returns Err iff a sink call failed in it; the line AND its cursor afterwards are as before / as the key "
@@ -1047,7 +1090,7 @@ def c09(ck):
         st = parse_steps(o)
         if st is None:
             return o
-        return [(x["r"], x["calls"], x["sink"].replace(",F", "").replace("F,", "")) for x in st if x["calls"] != "-" or "0d0a" in x["sink"]]
+        return [(x["r"], x["calls"], sinkb(x["sink"])) for x in st if x["calls"] != "-" or "0d0a" in x["sink"]]
 
     def oracle(case, io):
         es = enter_steps(case, io)
@@ -1122,7 +1165,7 @@ def c12(ck):
         st = parse_steps(o)
         if st is None:
             return o
-        return [(x["r"], x["calls"], x["sink"].replace(",F", "").replace("F,", "")) for x in st if x["calls"] != "-" or "0d0a" in x["sink"]]
+        return [(x["r"], x["calls"], sinkb(x["sink"])) for x in st if x["calls"] != "-" or "0d0a" in x["sink"]]
 
     def oracle(case, io):
         es = enter_steps(case, io)
@@ -1196,9 +1239,11 @@ def c16(ck):
         # model configured alike
         import subprocess
         model = run_model_featset(drv, ses, fs)
+        # canonical form of a session output: result, line, cursor, history, prompt, handler calls and the SCREEN its bytes paint
+        p_impl, p_model, p_base = drv_run("termproj", impl), drv_run("termproj", model), drv_run("termproj", base)
         bad = 0
         nontriv = 0
-        for c, io, mo, bo in zip(ses, impl, model, base):
+        for idx, (c, io, mo, bo) in enumerate(zip(ses, impl, model, base)):
             st = parse_steps(io)
             reason = None
             if st is None:
@@ -1240,11 +1285,11 @@ def c16(ck):
                             reason = ("oracle", "help off: the help-shaped line %s was not delivered to the handler" % c.split("b:")[1].split(";")[0])
                 if reason is None and ((has("a") or not u["a"]) and (has("h") or not u["h"]) and has("c")):
                     bst = parse_steps(bo)
-                    if bst is not None and [(x["r"], x["text"], x["cur"], x["calls"], x["sink"]) for x in st] != [(x["r"], x["text"], x["cur"], x["calls"], x["sink"]) for x in bst]:
+                    nohist = lambda P: [" | ".join(f for i_, f in enumerate(st_.split("|")) if i_ != 3) for st_ in P.split(" ; ")]
+                    if bst is not None and nohist(p_impl[idx]) != nohist(p_base[idx]):
                         reason = ("oracle", "feature set %s differs from the full build on a session that does not use the disabled facility" % fs)
                 mst = parse_steps(mo)
-                pj = lambda S: [(x["r"], x["text"], x["cur"], x["calls"], x["sink"].replace(",F", "").replace("F,", "")) for x in S]
-                if reason is None and (mst is None or pj(st) != pj(mst)):
+                if reason is None and (mst is None or p_impl[idx] != p_model[idx]):
                     reason = ("diff", "feature set %s: implementation and model (configured alike) differ" % fs)
                 nontriv += 1
             if reason and bad < 2:
